@@ -139,6 +139,46 @@ def register(R):
                'implies(self.num_samples > 0, val(result) * self.num_samples == 2 * self.sum_half_pointwise_rel_diff)'],
       bounded='bounded_rolling'))
 
+  # ---- per-row retrieval formulas at a cut-off k (pointwise: T = relevant among the top k, c = #predictions, L = #relevant)
+  RT = 'ml_metrics/_src/aggregates/retrieval.py'
+  dom = ['k_list >= 1', 'tp_at_topks >= 0']
+  withc = ['y_pred_count >= 1', 'tp_at_topks <= min(k_list, y_pred_count)']
+  withl = ['y_true_len >= 1', 'tp_at_topks <= y_true_len']
+  PREC = 'tp_at_topks / min(k_list, y_pred_count)'
+  REC = 'tp_at_topks / y_true_len'
+  A3ARR = dict(tp_at_topks='parr', k_list='parr', y_pred_count='parr', y_true_len='parr')
+  wit = dict(T='tp_at_topks', k='k_list', c='y_pred_count', L='y_true_len')
+  def rt(fn, params, req, ens):
+    R.add(Contract(f'{RT}::{fn}', P, types={p_: A3ARR[p_] for p_ in params}, ret='real', requires=req,
+                   ensures=ens, witness={w_: e_ for w_, e_ in wit.items() if e_ in params}, bounded='bounded_retrieval'))
+  rt('_accuracy', ['tp_at_topks', 'k_list'], dom, ['result == ite(tp_at_topks > 0, 1, 0)'])
+  for f_ in ('_precision', '_ppv', '_positive_predictive_value'):
+    rt(f_, ['tp_at_topks', 'k_list', 'y_pred_count'], dom + withc, [f'result == {PREC}', '0 <= result and result <= 1'])
+  for f_ in ('_recall', '_sensitivity', '_tpr'):
+    rt(f_, ['tp_at_topks', 'k_list', 'y_true_len'], dom + withl, [f'result == {REC}', '0 <= result and result <= 1'])
+  rt('_miss_rate', ['tp_at_topks', 'k_list', 'y_true_len'], dom + withl, [f'result == 1 - {REC}'])
+  rt('_false_discovery_rate', ['tp_at_topks', 'k_list', 'y_pred_count'], dom + withc, [f'result == 1 - {PREC}'])
+  # Jaccard: |relevant & retrieved| / |relevant | retrieved|
+  rt('_intersection_over_union', ['tp_at_topks', 'k_list', 'y_true_len', 'y_pred_count'], dom + withc + withl,
+     ['result == tp_at_topks / (min(k_list, y_pred_count) + y_true_len - tp_at_topks)', '0 <= result and result <= 1'])
+  # tp / (tp + fn + fp) with the top k counted as k predictions (the convention the suite pins)
+  rt('_threat_score', ['tp_at_topks', 'k_list', 'y_true_len'], dom + withl + ['tp_at_topks <= k_list'],
+     ['result == tp_at_topks / (tp_at_topks + (y_true_len - tp_at_topks) + (k_list - tp_at_topks))'])
+  rt('_fowlkes_mallows_index', ['tp_at_topks', 'k_list', 'y_true_len', 'y_pred_count'], dom + withc + withl,
+     [f'result == sqrt(({PREC}) * ({REC}))'])
+  R.add(Contract(f'{RT}::_f1_score', P, types=dict(precision='rreal', recall='rreal'), ret='rreal',
+                 requires=['0 <= precision and precision <= 1', '0 <= recall and recall <= 1'],
+                 ensures=['result == sdiv(2 * precision * recall, precision + recall)', '0 <= result and result <= 1'],
+                 bounded='bounded_retrieval', note='harmonic mean, 0 when both are 0'))
+
+  R.cls('_ThresholdedConfusionMatrix', dict(thresholds='rreal', tp_trues='rreal', tp_preds='rreal', p_trues='rreal', p_preds='rreal'))
+  tcm = dict(self='_ThresholdedConfusionMatrix')
+  R.add(Contract(f'{RT}::_ThresholdedConfusionMatrix.precision', P, types=tcm, ret='rreal',
+                 ensures=['result == sdiv(self.tp_preds, self.p_preds)'], bounded='bounded_thresholded_retrieval',
+                 note='matched predictions / predictions above the threshold; 0 when there is none'))
+  R.add(Contract(f'{RT}::_ThresholdedConfusionMatrix.recall', P, types=tcm, ret='rreal',
+                 ensures=['result == sdiv(self.tp_trues, self.p_trues)'], bounded='bounded_thresholded_retrieval'))
+
   R.bounded_checks[P] = [
       ('bounded_rates', 'every ConfusionMatrixMetric vs independent re-implementation over all counts <= 4 (5 thorough)'),
       ('bounded_classification_api', 'ClassificationAggFn / one-shot functions vs brute force from raw examples (input types x averages)'),
